@@ -24,131 +24,94 @@ theorem decodeRune_size (b : UInt8) (rest : Bytes) :
   all_goals simp_all <;> omega
 
 /-- a sequence `decodeRune` accepts as multi-byte is re-encoded to exactly those bytes -/
-theorem encode_decode (b : UInt8) (rest : Bytes) (hsz : (decodeRune (b :: rest)).2 ≥ 2) :
-    encodeRune (decodeRune (b :: rest)).1 = (b :: rest).take (decodeRune (b :: rest)).2 := by
-  unfold decodeRune at hsz ⊢
-  simp only [] at hsz ⊢
+theorem encode_decode2 (b b1 : UInt8) (r : Bytes) (h1 : 0xC2 ≤ b.toNat) (h2 : b.toNat < 0xE0) (hc : isCont b1 = true) :
+    decodeRune (b :: b1 :: r) = ((b.toNat % 32) * 64 + b1.toNat % 64, 2) ∧
+    encodeRune ((b.toNat % 32) * 64 + b1.toNat % 64) = [b, b1] := by
   have hb := b.toNat_lt
-  split at hsz
-  · simp at hsz
-  · split at hsz
-    · simp at hsz
-    · split at hsz
-      · -- two bytes
-        rename_i h1 h2 h3
-        rw [if_neg h1, if_neg h2, if_pos h3]
-        cases rest with
-        | nil => simp at hsz
-        | cons b1 r1 =>
-          simp only [] at hsz ⊢
-          have hb1 := b1.toNat_lt
-          by_cases hc : isCont b1 = true
-          · simp only [hc, if_true] at hsz ⊢
-            simp only [isCont, Bool.and_eq_true, decide_eq_true_eq] at hc
-            have hr1 : ¬ ((b.toNat % 32) * 64 + b1.toNat % 64 < 0x80) := by omega
-            have hr2 : (b.toNat % 32) * 64 + b1.toNat % 64 < 0x800 := by omega
-            simp only [encodeRune, hr1, hr2, if_false, if_true, List.take]
-            congr 1
-            · exact ofNat_of_eq_toNat b _ (by omega)
-            · congr 1; exact ofNat_of_eq_toNat b1 _ (by omega)
-          · simp [hc] at hsz
-      · split at hsz
-        · -- three bytes
-          rename_i h1 h2 h3 h4
-          rw [if_neg h1, if_neg h2, if_neg h3, if_pos h4]
-          match rest, hsz with
-          | [], hsz => simp at hsz
-          | [_], hsz => simp at hsz
-          | b1 :: b2 :: r2, hsz =>
-            simp only [] at hsz ⊢
-            have hb1 := b1.toNat_lt
-            have hb2 := b2.toNat_lt
-            split at hsz
-            · rename_i hc
-              rw [if_pos hc]
-              simp only [Bool.and_eq_true, decide_eq_true_eq, isCont, beq_iff_eq] at hc
-              obtain ⟨⟨hlo, hhi⟩, hc2⟩ := hc
-              have e0 : (b == 0xE0) = decide (b.toNat = 0xE0) := by
-                by_cases hq : b = 0xE0 <;> simp [hq]
-                intro hh; exact hq (UInt8.toNat_inj.mp (by simpa using hh))
-              have eD : (b == 0xED) = decide (b.toNat = 0xED) := by
-                by_cases hq : b = 0xED <;> simp [hq]
-                intro hh; exact hq (UInt8.toNat_inj.mp (by simpa using hh))
-              rw [e0] at hlo; rw [eD] at hhi
-              have hlo' : (if b.toNat = 0xE0 then 0xA0 else 0x80) ≤ b1.toNat := by
-                by_cases hq : b.toNat = 0xE0 <;> simp [hq] at hlo ⊢ <;> exact hlo
-              have hhi' : b1.toNat ≤ (if b.toNat = 0xED then 0x9F else 0xBF) := by
-                by_cases hq : b.toNat = 0xED <;> simp [hq] at hhi ⊢ <;> exact hhi
-              have hr : (b.toNat % 16) * 4096 + (b1.toNat % 64) * 64 + b2.toNat % 64 ≥ 0x800 := by
-                by_cases hq : b.toNat = 0xE0 <;> simp [hq] at hlo' <;> omega
-              have hns : ¬ (0xD800 ≤ (b.toNat % 16) * 4096 + (b1.toNat % 64) * 64 + b2.toNat % 64 ∧
-                  (b.toNat % 16) * 4096 + (b1.toNat % 64) * 64 + b2.toNat % 64 < 0xE000) := by
-                by_cases hq : b.toNat = 0xED <;> simp [hq] at hhi' <;> omega
-              have hr3 : (b.toNat % 16) * 4096 + (b1.toNat % 64) * 64 + b2.toNat % 64 < 0x10000 := by omega
-              have hsur : isSurrogate ((b.toNat % 16) * 4096 + (b1.toNat % 64) * 64 + b2.toNat % 64) = false := by
-                simp only [isSurrogate, Bool.and_eq_false_iff, decide_eq_false_iff_not]
-                by_cases hq : 0xD800 ≤ (b.toNat % 16) * 4096 + (b1.toNat % 64) * 64 + b2.toNat % 64
-                · right; omega
-                · left; exact hq
-              have hr1 : ¬ ((b.toNat % 16) * 4096 + (b1.toNat % 64) * 64 + b2.toNat % 64 < 0x80) := by omega
-              have hr2 : ¬ ((b.toNat % 16) * 4096 + (b1.toNat % 64) * 64 + b2.toNat % 64 < 0x800) := by omega
-              have hr4 : ¬ ((b.toNat % 16) * 4096 + (b1.toNat % 64) * 64 + b2.toNat % 64 > 0x10FFFF) := by omega
-              simp only [encodeRune, hr1, hr2, hsur, hr4, hr3, if_false, if_true, Bool.false_or, decide_false, List.take, Bool.false_eq_true]
-              congr 1
-              · exact ofNat_of_eq_toNat b _ (by omega)
-              · congr 1
-                · exact ofNat_of_eq_toNat b1 _ (by omega)
-                · congr 1; exact ofNat_of_eq_toNat b2 _ (by omega)
-            · simp at hsz
-        · split at hsz
-          · -- four bytes
-            rename_i h1 h2 h3 h4 h5
-            rw [if_neg h1, if_neg h2, if_neg h3, if_neg h4, if_pos h5]
-            match rest, hsz with
-            | [], hsz => simp at hsz
-            | [_], hsz => simp at hsz
-            | [_, _], hsz => simp at hsz
-            | b1 :: b2 :: b3 :: r3, hsz =>
-              simp only [] at hsz ⊢
-              have hb1 := b1.toNat_lt
-              have hb2 := b2.toNat_lt
-              have hb3 := b3.toNat_lt
-              split at hsz
-              · rename_i hc
-                rw [if_pos hc]
-                simp only [Bool.and_eq_true, decide_eq_true_eq, isCont] at hc
-                obtain ⟨⟨⟨hlo, hhi⟩, hc2⟩, hc3⟩ := hc
-                have e0 : (b == 0xF0) = decide (b.toNat = 0xF0) := by
-                  by_cases hq : b = 0xF0 <;> simp [hq]
-                  intro hh; exact hq (UInt8.toNat_inj.mp (by simpa using hh))
-                have e4 : (b == 0xF4) = decide (b.toNat = 0xF4) := by
-                  by_cases hq : b = 0xF4 <;> simp [hq]
-                  intro hh; exact hq (UInt8.toNat_inj.mp (by simpa using hh))
-                rw [e0] at hlo; rw [e4] at hhi
-                have hlo' : (if b.toNat = 0xF0 then 0x90 else 0x80) ≤ b1.toNat := by
-                  by_cases hq : b.toNat = 0xF0 <;> simp [hq] at hlo ⊢ <;> exact hlo
-                have hhi' : b1.toNat ≤ (if b.toNat = 0xF4 then 0x8F else 0xBF) := by
-                  by_cases hq : b.toNat = 0xF4 <;> simp [hq] at hhi ⊢ <;> exact hhi
-                have hr : (b.toNat % 8) * 262144 + (b1.toNat % 64) * 4096 + (b2.toNat % 64) * 64 + b3.toNat % 64 ≥ 0x10000 := by
-                  by_cases hq : b.toNat = 0xF0 <;> simp [hq] at hlo' <;> omega
-                have hr4 : (b.toNat % 8) * 262144 + (b1.toNat % 64) * 4096 + (b2.toNat % 64) * 64 + b3.toNat % 64 ≤ 0x10FFFF := by
-                  by_cases hq : b.toNat = 0xF4 <;> simp [hq] at hhi' <;> omega
-                have hsur : isSurrogate ((b.toNat % 8) * 262144 + (b1.toNat % 64) * 4096 + (b2.toNat % 64) * 64 + b3.toNat % 64) = false := by
-                  simp only [isSurrogate, Bool.and_eq_false_iff, decide_eq_false_iff_not]
-                  right; omega
-                have hr1 : ¬ ((b.toNat % 8) * 262144 + (b1.toNat % 64) * 4096 + (b2.toNat % 64) * 64 + b3.toNat % 64 < 0x80) := by omega
-                have hr2 : ¬ ((b.toNat % 8) * 262144 + (b1.toNat % 64) * 4096 + (b2.toNat % 64) * 64 + b3.toNat % 64 < 0x800) := by omega
-                have hr3 : ¬ ((b.toNat % 8) * 262144 + (b1.toNat % 64) * 4096 + (b2.toNat % 64) * 64 + b3.toNat % 64 < 0x10000) := by omega
-                have hr5 : ¬ ((b.toNat % 8) * 262144 + (b1.toNat % 64) * 4096 + (b2.toNat % 64) * 64 + b3.toNat % 64 > 0x10FFFF) := by omega
-                simp only [encodeRune, hr1, hr2, hsur, hr5, hr3, if_false, Bool.false_or, decide_false, List.take, Bool.false_eq_true]
-                congr 1
-                · exact ofNat_of_eq_toNat b _ (by omega)
-                · congr 1
-                  · exact ofNat_of_eq_toNat b1 _ (by omega)
-                  · congr 1
-                    · exact ofNat_of_eq_toNat b2 _ (by omega)
-                    · congr 1; exact ofNat_of_eq_toNat b3 _ (by omega)
-              · simp at hsz
-          · simp at hsz
+  have hb1 := b1.toNat_lt
+  constructor
+  · have n1 : ¬ b.toNat < 0x80 := by omega
+    have n2 : ¬ b.toNat < 0xC2 := by omega
+    simp [decodeRune, n1, n2, h2, hc]
+  · simp only [isCont, Bool.and_eq_true, decide_eq_true_eq] at hc
+    have hr1 : ¬ ((b.toNat % 32) * 64 + b1.toNat % 64 < 0x80) := by omega
+    have hr2 : (b.toNat % 32) * 64 + b1.toNat % 64 < 0x800 := by omega
+    simp only [encodeRune, hr1, hr2, if_false, if_true]
+    congr 1
+    · exact ofNat_of_eq_toNat b _ (by omega)
+    · congr 1; exact ofNat_of_eq_toNat b1 _ (by omega)
+
+theorem encode_decode3 (b b1 b2 : UInt8) (r : Bytes) (h1 : 0xE0 ≤ b.toNat) (h2 : b.toNat < 0xF0)
+    (hE0 : b.toNat = 0xE0 → 0xA0 ≤ b1.toNat) (h80 : 0x80 ≤ b1.toNat) (hED : b.toNat = 0xED → b1.toNat ≤ 0x9F) (hBF : b1.toNat ≤ 0xBF)
+    (hc2 : isCont b2 = true) :
+    decodeRune (b :: b1 :: b2 :: r) = ((b.toNat % 16) * 4096 + (b1.toNat % 64) * 64 + b2.toNat % 64, 3) ∧
+    encodeRune ((b.toNat % 16) * 4096 + (b1.toNat % 64) * 64 + b2.toNat % 64) = [b, b1, b2] := by
+  have hb := b.toNat_lt
+  have hb1 := b1.toNat_lt
+  have hb2 := b2.toNat_lt
+  constructor
+  · have n1 : ¬ b.toNat < 0x80 := by omega
+    have n2 : ¬ b.toNat < 0xC2 := by omega
+    have n3 : ¬ b.toNat < 0xE0 := by omega
+    by_cases qE0 : b.toNat = 0xE0 <;> by_cases qED : b.toNat = 0xED
+    · omega
+    · have := hE0 qE0; simp [decodeRune, n1, n2, n3, h2, hc2, qE0, this, hBF]
+    · have := hED qED; simp [decodeRune, n1, n2, n3, h2, hc2, qED, this, h80]
+    · simp [decodeRune, n1, n2, n3, h2, hc2, qE0, qED, h80, hBF]
+  · simp only [isCont, Bool.and_eq_true, decide_eq_true_eq] at hc2
+    have hr : (b.toNat % 16) * 4096 + (b1.toNat % 64) * 64 + b2.toNat % 64 ≥ 0x800 := by omega
+    have hsur : isSurrogate ((b.toNat % 16) * 4096 + (b1.toNat % 64) * 64 + b2.toNat % 64) = false := by
+      simp only [isSurrogate, Bool.and_eq_false_iff, decide_eq_false_iff_not]
+      by_cases hlt : b.toNat ≤ 0xED
+      · left; omega
+      · right; omega
+    have hr1 : ¬ ((b.toNat % 16) * 4096 + (b1.toNat % 64) * 64 + b2.toNat % 64 < 0x80) := by omega
+    have hr2 : ¬ ((b.toNat % 16) * 4096 + (b1.toNat % 64) * 64 + b2.toNat % 64 < 0x800) := by omega
+    have hr3 : (b.toNat % 16) * 4096 + (b1.toNat % 64) * 64 + b2.toNat % 64 < 0x10000 := by omega
+    have hr4 : ¬ ((b.toNat % 16) * 4096 + (b1.toNat % 64) * 64 + b2.toNat % 64 > 0x10FFFF) := by omega
+    simp only [encodeRune, hr1, hr2, hsur, hr4, hr3, if_false, if_true, Bool.false_or, decide_false, Bool.false_eq_true]
+    congr 1
+    · exact ofNat_of_eq_toNat b _ (by omega)
+    · congr 1
+      · exact ofNat_of_eq_toNat b1 _ (by omega)
+      · congr 1; exact ofNat_of_eq_toNat b2 _ (by omega)
+
+theorem encode_decode4 (b b1 b2 b3 : UInt8) (r : Bytes) (h1 : 0xF0 ≤ b.toNat) (h2 : b.toNat < 0xF5)
+    (hF0 : b.toNat = 0xF0 → 0x90 ≤ b1.toNat) (h80 : 0x80 ≤ b1.toNat) (hF4 : b.toNat = 0xF4 → b1.toNat ≤ 0x8F) (hBF : b1.toNat ≤ 0xBF)
+    (hc2 : isCont b2 = true) (hc3 : isCont b3 = true) :
+    decodeRune (b :: b1 :: b2 :: b3 :: r) = ((b.toNat % 8) * 262144 + (b1.toNat % 64) * 4096 + (b2.toNat % 64) * 64 + b3.toNat % 64, 4) ∧
+    encodeRune ((b.toNat % 8) * 262144 + (b1.toNat % 64) * 4096 + (b2.toNat % 64) * 64 + b3.toNat % 64) = [b, b1, b2, b3] := by
+  have hb := b.toNat_lt
+  have hb1 := b1.toNat_lt
+  have hb2 := b2.toNat_lt
+  have hb3 := b3.toNat_lt
+  constructor
+  · have n1 : ¬ b.toNat < 0x80 := by omega
+    have n2 : ¬ b.toNat < 0xC2 := by omega
+    have n3 : ¬ b.toNat < 0xE0 := by omega
+    have n4 : ¬ b.toNat < 0xF0 := by omega
+    by_cases qF0 : b.toNat = 0xF0 <;> by_cases qF4 : b.toNat = 0xF4
+    · omega
+    · have := hF0 qF0; simp [decodeRune, n1, n2, n3, n4, h2, hc2, hc3, qF0, this, hBF]
+    · have := hF4 qF4; simp [decodeRune, n1, n2, n3, n4, h2, hc2, hc3, qF4, this, h80]
+    · simp [decodeRune, n1, n2, n3, n4, h2, hc2, hc3, qF0, qF4, h80, hBF]
+  · simp only [isCont, Bool.and_eq_true, decide_eq_true_eq] at hc2 hc3
+    have hr : (b.toNat % 8) * 262144 + (b1.toNat % 64) * 4096 + (b2.toNat % 64) * 64 + b3.toNat % 64 ≥ 0x10000 := by omega
+    have hr4 : (b.toNat % 8) * 262144 + (b1.toNat % 64) * 4096 + (b2.toNat % 64) * 64 + b3.toNat % 64 ≤ 0x10FFFF := by omega
+    have hsur : isSurrogate ((b.toNat % 8) * 262144 + (b1.toNat % 64) * 4096 + (b2.toNat % 64) * 64 + b3.toNat % 64) = false := by
+      simp only [isSurrogate, Bool.and_eq_false_iff, decide_eq_false_iff_not]
+      right; omega
+    have hr1 : ¬ ((b.toNat % 8) * 262144 + (b1.toNat % 64) * 4096 + (b2.toNat % 64) * 64 + b3.toNat % 64 < 0x80) := by omega
+    have hr2 : ¬ ((b.toNat % 8) * 262144 + (b1.toNat % 64) * 4096 + (b2.toNat % 64) * 64 + b3.toNat % 64 < 0x800) := by omega
+    have hr3 : ¬ ((b.toNat % 8) * 262144 + (b1.toNat % 64) * 4096 + (b2.toNat % 64) * 64 + b3.toNat % 64 < 0x10000) := by omega
+    have hr5 : ¬ ((b.toNat % 8) * 262144 + (b1.toNat % 64) * 4096 + (b2.toNat % 64) * 64 + b3.toNat % 64 > 0x10FFFF) := by omega
+    simp only [encodeRune, hr1, hr2, hsur, hr5, hr3, if_false, Bool.false_or, decide_false, Bool.false_eq_true]
+    congr 1
+    · exact ofNat_of_eq_toNat b _ (by omega)
+    · congr 1
+      · exact ofNat_of_eq_toNat b1 _ (by omega)
+      · congr 1
+        · exact ofNat_of_eq_toNat b2 _ (by omega)
+        · congr 1; exact ofNat_of_eq_toNat b3 _ (by omega)
 
 end Ajson
